@@ -24,7 +24,7 @@ MODS = (doctrans.emit, doctrans.conformance, doctrans.sync_properties, doctrans.
 KINDS = ("argparse_function", "class", "function")
 FILES = {"argparse_function": "/p/argparse.py", "class": "/p/classes.py", "function": "/p/methods.py"}
 NAMES = {"argparse_function": "set_cli_args", "class": "ConfigClass"}
-PRE = ("missing", "empty", "absent", "stale", "agreeing", "stale_extra")
+PRE = ("missing", "empty", "absent", "stale", "agreeing", "stale_extra", "absent_nested")
 
 class _Pool(list):
     """the three hand-picked descriptions, and - from index 100 on - the generated shapes of lib/grid.py (GRID_IDS)"""
@@ -50,6 +50,10 @@ def _grid_ids():
 
 GRID_IDS = _grid_ids()
 STALE = lambda: mk_ir("p1_str_s", p="old text", s="old")  # noqa: E731
+
+
+NESTED = ("import os\n\n\nclass Holder(object):\n    class ConfigClass(object):\n        z: int = 0\n\n    def set_cli_args(self, p):\n        return p\n\n"
+          "    def train(self, a):\n        return a\n\n\nX = 1\n")
 
 
 def fn_name(method):
@@ -100,6 +104,9 @@ def project(truth, given, pre, method, ir_idx, trailing_nl=True):
             files[FILES[k]] = ""
         elif st == "absent":
             files[FILES[k]] = "import os\n\nX = 1\n"
+        elif st == "absent_nested":
+            # the definition is absent at module level, but definitions with the same simple names live inside another class
+            files[FILES[k]] = NESTED
         elif st == "stale":
             files[FILES[k]] = render(k, STALE(), method)
         else:
